@@ -8,6 +8,7 @@
 #include <deque>
 #include <algorithm>
 #include <cstddef>
+#include <cstring>
 namespace st {
 struct const_buffer { char const* p; std::size_t n; };
 struct chunk { char* data() { return d; } int size() const { return 16; } char d[16]; };
@@ -77,6 +78,18 @@ struct sched {
 	// a deferred closure capturing a view of a shared buffer
 	void bad_view_capture(pkt& p) { const_buffer b{m_src, 8}; p.drop_fun = [b](int) { (void)b.p[0]; }; }
 	void good_copy_capture(pkt& p) { std::vector<char> b(m_src, m_src + 8); p.drop_fun = [b](int) { (void)b[0]; }; }
+
+	// dereference of a moved-from owner
+	struct chan { int hops[2]; };
+	struct rpkt { std::shared_ptr<chan> channel; int h = 0; };
+	void sink(rpkt) {}
+	void bad_deref_after_move(rpkt& p) { rpkt r; r.channel = std::move(p.channel); r.h = p.channel->hops[0]; sink(std::move(r)); }
+	void good_deref_before_move(rpkt& p) { rpkt r; r.h = p.channel->hops[0]; r.channel = std::move(p.channel); sink(std::move(r)); }
+	// copies out of a container are bounded by what is left behind the offset
+	std::vector<unsigned char> m_payload;
+	int bad_copy_past_end(char* dst, int len) { int const size = int(m_payload.size()); int read = 0; for (int k = 0; k < 2; ++k) { int const n = (std::min)(size, len); memcpy(dst, m_payload.data() + read, n); read += n; } return read; }
+	int good_copy_remaining(char* dst, int len) { int const size = int(m_payload.size()); int read = 0; for (int k = 0; k < 2; ++k) { int const n = (std::min)(size - read, len); memcpy(dst, m_payload.data() + read, n); read += n; } return read; }
+	int good_copy_front(char* dst, int len) { int const n = (std::min)(int(m_payload.size()), len); memcpy(dst, m_payload.data(), n); return n; }
 
 	[[noreturn]] void fail() { throw std::runtime_error("x"); }
 	int good_noreturn_exit(char const* s) { if (s == nullptr) { fail(); } return *s; }
